@@ -279,18 +279,21 @@ func (commit *Commit) FirstPrecommit() *Vote {
 	return nil
 }
 
+// Height is the height of the first precommit present; 0 if every slot is empty
+// (a commit decoded from a peer's bytes may hold nothing but nil precommits).
 func (commit *Commit) Height() int64 {
-	if len(commit.Precommits) == 0 {
-		return 0
+	if first := commit.FirstPrecommit(); first != nil {
+		return first.Height
 	}
-	return commit.FirstPrecommit().Height
+	return 0
 }
 
+// Round is the round of the first precommit present; 0 if every slot is empty.
 func (commit *Commit) Round() int64 {
-	if len(commit.Precommits) == 0 {
-		return 0
+	if first := commit.FirstPrecommit(); first != nil {
+		return first.Round
 	}
-	return commit.FirstPrecommit().Round
+	return 0
 }
 
 func (commit *Commit) Type() byte {
@@ -329,7 +332,7 @@ func (commit *Commit) ValidateBasic() error {
 	if commit.BlockID.IsZero() {
 		return errors.New("Commit cannot be for nil block")
 	}
-	if len(commit.Precommits) == 0 {
+	if len(commit.Precommits) == 0 || commit.FirstPrecommit() == nil {
 		return errors.New("No precommits in commit")
 	}
 	height, round := commit.Height(), commit.Round()
